@@ -273,6 +273,8 @@ type vfRouteScenario struct {
 	// a reconnect while the old stream is still alive (reopenT) and the later end of the old stream (breakOldT).
 	PlaceTNext []int `json:"place_t_next,omitempty"`
 	Overlap    bool  `json:"overlap,omitempty"`
+	// LaneAcks: targets acknowledge as Temporal's tiered receiver does (a state per priority lane next to the flat field)
+	LaneAcks bool `json:"lane_acks,omitempty"`
 	// WMAdvance: the first watermark-only batch after the last scripted batch carries a high watermark this much
 	// above the last batch's (the source's watermark advances without tasks for this cluster)
 	WMAdvance int64 `json:"wm_advance,omitempty"`
@@ -1137,9 +1139,14 @@ func (e *vfRouteExec) tick(t *vfTgt) {
 	ts.lastTick = w
 	ts.acks = append(ts.acks, w)
 	e.logf("T%d#%d acks inclusive_low=%d", t.idx, len(t.incoming)-1, w)
+	st := &replicationv1.SyncReplicationState{InclusiveLowWatermark: w}
+	if e.sc.LaneAcks && ts.high != nil {
+		// Temporal's tiered receiver: one state per priority lane, the flat field is the lane that is further behind
+		st.HighPriorityState = &replicationv1.ReplicationState{InclusiveLowWatermark: *ts.high}
+		st.LowPriorityState = &replicationv1.ReplicationState{InclusiveLowWatermark: w}
+	}
 	ts.deliver(vfItem{req: &adminservice.StreamWorkflowReplicationMessagesRequest{
-		Attributes: &adminservice.StreamWorkflowReplicationMessagesRequest_SyncReplicationState{
-			SyncReplicationState: &replicationv1.SyncReplicationState{InclusiveLowWatermark: w}}}})
+		Attributes: &adminservice.StreamWorkflowReplicationMessagesRequest_SyncReplicationState{SyncReplicationState: st}}})
 }
 
 // --- opening streams
